@@ -95,7 +95,7 @@ def boundary_body(c):
             "Definition model := Eval vm_compute in (flat_map (fun I => map (fun J => ent I J) (seq 0 %d)) (seq 0 %d))."
             % (nc, nr),
             "Definition impl : list CQ := %s." % ab.clist(c["impl"]),
-            "Eval vm_compute in (if raised then [999998%%nat] else cmp_list %s model impl)." % ab.tol_of(c["scale"]),
+            "Eval vm_compute in (if raised then [9998%%nat] else cmp_list %s model impl)." % ab.tol_of(c["scale"]),
             "Eval vm_compute in (count_nonzero model).", ""]
     return HDR + "\n".join(lines)
 
@@ -130,7 +130,7 @@ def potential_body(c):
         lines += [
             "Definition model := Eval vm_compute in (flat_map (fun cf => flat_map (fun pt => val cf pt) pts) coefs).",
             "Definition impl : list CQ := %s." % ab.clist(c["impl"]),
-            "Eval vm_compute in (if raised then [999998%%nat] else cmp_list %s model impl)." % ab.tol_of(c["scale"]),
+            "Eval vm_compute in (if raised then [9998%%nat] else cmp_list %s model impl)." % ab.tol_of(c["scale"]),
             "Eval vm_compute in (count_nonzero model).", ""]
     return HDR + "\n".join(lines)
 
